@@ -5,7 +5,7 @@ src="/tmp/seed-out/$id/$x"; [ -d "$src" ] || src="/verif/seeded/$id-$x"
 wt=$(mktemp -d /tmp/sw-XXXXXX); rmdir "$wt"
 git -C /repo worktree add -q --detach "$wt" HEAD || exit 2
 clean=$(cd "$wt" && MLREPO="$wt" timeout 900 /venv/bin/python "$src/demo.py" >/dev/null 2>&1; echo $?)
-if ! ( cd "$wt" && git apply "$src/patch.diff" ); then git -C /repo worktree remove --force "$wt"; echo "SEED $id-$x: patch does not apply"; exit 2; fi
+if ! ( cd "$wt" && { git apply "$src/patch.diff" 2>/dev/null || patch -p1 -s -F3 --no-backup-if-mismatch < "$src/patch.diff"; } ); then git -C /repo worktree remove --force "$wt"; echo "SEED $id-$x: patch does not apply"; exit 2; fi
 patched=$(cd "$wt" && MLREPO="$wt" timeout 900 /venv/bin/python "$src/demo.py" >/dev/null 2>&1; echo $?)
 tests=$(cd "$wt" && env -u MLINSIGHTS_VERIF /venv/bin/python -m pytest -q -p no:cacheprovider --timeout=900 --continue-on-collection-errors _unittests/ut_helpers _unittests/ut_metrics _unittests/ut_plotting/test_dot.py _unittests/ut_plotting/test_str.py _unittests/ut_sklapi 2>&1 | grep -Eo '[0-9]+ passed|[0-9]+ failed' | tr '\n' ' ')
 ev=$(mktemp -d /tmp/mev-XXXXXX)
